@@ -26,6 +26,10 @@ FULL.update({
  'C16': 'Statement/holds: new(u,0) rejected; every push history: verdicts = greedy acceptance, build reads back exactly the accepted values with universe u; rejected_push_no_effect; extend_spec (stops at the first rejection, keeps earlier items).',
  'C17': 'Statement/holds: the six index iterators (list then None forever, exact size hints) from the access theorems; EliasFano::iter(k); unary iterator: next enumerates the set positions >= p then None forever, ANY sequence of skip1/skip0 follows the cursor semantics, exhaustion is permanent, the debug assertion cannot fire.',
 })
+FULL.update({
+ 'C15': 'Statement/holds: for every pair of configurations: builders produce the same value (Rank9Sel, DArray, EliasFano, SArray, DacsByte, DacsOpt, PSEF, WaveletMatrix) hence the same serialized bytes (bytes_*); one query corollary per property (c01..c17) from the cfg-free full statements; binsearch as a function of the stored list alone.',
+ 'C19': 'Statement/holds: every documented bound over Codec.size (= size_in_bytes): BitVector, CompactVector (exact), Rank9Sel (all hint configs), DArray (all index configs), EliasFano (with/without rank), SArray, PSEF, DacsByte, DacsOpt, WaveletMatrix<Rank9Sel>.',
+})
 PARTIAL = {
  'C03': 'Theorems so far: select1 through the Elias-Fano builder invariant (C04). The remaining queries are modelled and decided by the correspondence (proof of the Elias-Fano queries in progress).',
  'C04': 'Theorems so far: builder invariant for every history; select = x_k given the select1 answers of the high bits; unary-code counting lemmas; the DArray over the high bits is proved (C02). delta/rank/predecessor/successor/binsearch/iter are modelled and decided by the correspondence (proofs in progress).',
